@@ -181,7 +181,9 @@ func (k Keeper) createHTLT(
 			)
 		}
 		// Amount in outgoing swaps must be able to pay the deputy's fixed fee.
-		if amount[0].Amount.LT(asset.FixedFee.Add(asset.MinSwapAmount)) {
+		// amount >= MinSwapAmount was checked above; comparing the difference avoids
+		// the overflow of FixedFee + MinSwapAmount for very large fees
+		if amount[0].Amount.Sub(asset.MinSwapAmount).LT(asset.FixedFee) {
 			return direction, errorsmod.Wrapf(
 				types.ErrInsufficientAmount,
 				"amount %s is less than fixed fee %s add min swap amount %s",
